@@ -57,7 +57,8 @@ Inductive obody :=
 | XCosigned (p : psth) (enc : bytes) (verified : bool).
 
 Inductive obs :=
-| XRsp (b : obody) (e : eclass)
+| XRsp (b : obody) (e : eclass)              (* direct call: status class of the error *)
+| XHttp (status : N) (b : obody)             (* through the HTTP server: status code; body only for 200 / 409 *)
 | XLogs (l : option (list logid))
 | XPanic.
 
@@ -81,9 +82,17 @@ Definition body_matches (m : body) (o : obody) : bool :=
 Fixpoint subset (a b : list logid) : bool :=
   match a with [] => true | x :: t => existsb (bytes_eqb x) b && subset t b end.
 
-Definition out_matches (m : out) (o : obs) : bool :=
-  match m, o with
+Definition mk (v s t : N) (root sg lid : bytes) : psth :=
+  {| p_version := v; p_size := s; p_time := t; p_root := root; p_sig := sg; p_logid := lid |}.
+
+Definition is_update (o : op) : bool := match o with OUpdate _ _ _ _ => true | _ => false end.
+
+Definition out_matches (oo : op * out) (o : obs) : bool :=
+  match snd oo, o with
   | ORsp (b, e), XRsp ob oe => body_matches b ob && eclass_eqb e oe
+  | ORsp (b, e), XHttp st ob =>
+      (st =? (if is_update (fst oo) then http_status_update e else http_status_get e))
+      && (if (st =? 200) || (st =? 409) then body_matches b ob else match ob with XNone => true | _ => false end)
   | OLogs None, XLogs None => true
   | OLogs (Some a), XLogs (Some b) => subset a b && subset b a && Nat.eqb (length a) (length b)
   | _, _ => false
@@ -101,7 +110,7 @@ Fixpoint all2 {A B} (f : A -> B -> bool) (a : list A) (b : list B) : bool :=
 
 Definition check (c : case) : bool :=
   match c with
-  | CHist e ops => all2 out_matches (snd (model_run e (map fst ops))) (map snd ops)
+  | CHist e ops => all2 out_matches (combine (map fst ops) (snd (model_run e (map fst ops)))) (map snd ops)
   | CVerify t m n pf r1 r2 ok => Bool.eqb (verify_consistency (table_hash t) m n pf r1 r2) ok
   | CTree t leaves m i root_n root_m cp ip =>
       let H := table_hash t in
